@@ -197,9 +197,8 @@ class Dispatcher:
         if pobj is None:
             raise NoSuchParameterError(f'Module {modulename!r} has no parameter {pname or exportedname!r}')
         if pobj.constant is not None:
-            # really needed? we could just construct a readreply instead....
-            # raise ReadOnlyError('This parameter is constant and can not be accessed remotely.')
-            return pobj.datatype.export_value(pobj.constant)
+            # a constant is not read from the hardware: reply with its value
+            return pobj.datatype.export_value(pobj.constant), {}
 
         # note: exceptions are handled in handle_request, not here!
         getattr(moduleobj, 'read_' + pname)()
